@@ -1,6 +1,11 @@
 fn main() {
     let entries = cat_quick::entries();
-    let cat = mc_desc::catalogue::build(mc_desc::catalogue::Tier::Quick);
+    let cat = if cat_quick::REDUCED {
+        println!("NOTE: reduced catalogue — the full catalogue does not compile against this tree");
+        mc_desc::catalogue::build_reduced(mc_desc::catalogue::Tier::Quick)
+    } else {
+        mc_desc::catalogue::build(mc_desc::catalogue::Tier::Quick)
+    };
     assert_eq!(entries.len(), cat.roots.len());
     std::process::exit(mc_core::main_with(entries, cat));
 }
